@@ -518,3 +518,331 @@ def run_replay(ctx, j, path):
 
 
 JUDGES["xz_write"] = lambda j, s, r, source="replay": judge_xz_write(j, s, r, None, source)
+
+
+# --------------------------------------------------------------------------- LZIP writer family (C02 C03 C12 C18)
+EXPORT_LZ = r'''
+ScnL(t) == [tag |-> t, dict |-> cfg.dict, limit |-> cfg.limit, far |-> cfg.far, calls |-> calls, members |-> MembersOf(file, 1),
+            dictbyte |-> EncodeByte(cfg.dict), st |-> rd.st, out |-> rd.out, total |-> ws.total, phase |-> phase]
+ExportL == (phase = "done") => PrintT(ToJson(ScnL("scn")))
+CexL(P) == P \/ (PrintT(ToJson(ScnL("cex"))) /\ FALSE)
+XWellFormed == CexL(WellFormed)
+XContent == CexL(Content)
+XSizeLimit == CexL(SizeLimit)
+XMembersFull == CexL(MembersFull)
+XScanOrder == CexL(ScanOrder)
+XRoundTrip == CexL(RoundTrip)
+'''
+LZ_INV = ["TypeOK", "XWellFormed", "XContent", "XSizeLimit", "XMembersFull", "XScanOrder", "XRoundTrip"]
+
+
+def lz_consts(variant=None, **kw):
+    c = dict(Dicts="{4096,5000,65536,70000}", LimitOpts="{0,3000,6000,80000}", WriteSizes="{2500,6000,90000}", MaxBytes="180000",
+             MaxMembers="6", CSizes="{7}", Fars="{FALSE,TRUE}", DictByteRoundsUp=ASBUILT["DictByteRoundsUp"])
+    if variant:
+        c.update(variant)
+    c.update({k: str(v) for k, v in kw.items()})
+    return c
+
+
+def lz_model(consts, invariants, workers=4, timeout=900, coverage=True):
+    d, mod, cfg = core.write_model("LzipContainer, Json", consts, invariants=invariants, extra_defs=EXPORT_LZ)
+    return core.run_tlc(mod, cfg, workers=workers, cwd=d, timeout=timeout, coverage=coverage)
+
+
+def lz_write_scn(sid, a, rnd):
+    calls = [{"op": "write", "n": n} if op == "w" else {"op": "finish"} for (op, n) in a["calls"]]
+    if not calls or calls[-1]["op"] != "finish":
+        calls.append({"op": "finish"})
+    opt = {"preset": rnd.choice([0, 1, 4, 6]), "dict": a["dict"]}
+    if a["limit"]:
+        opt["limit"] = a["limit"]
+    s = {"id": sid, "fam": "lz_write", "seed": rnd.getrandbits(32), "opt": opt, "calls": calls,
+         "reads": rnd.choice([[4096], [1], [7, 4096, 3], [65536]]), "abstract": a}
+    if a.get("far"):
+        s["period"] = a["dict"] - rnd.randint(1, 16)     # matches at a distance just below the dictionary size
+    else:
+        s["class"] = rnd.choice(["text", "seq", "lowent", "zeros", "mixed"])
+    return s
+
+
+def lz_sig(s):
+    opt = s["opt"]
+    total = sum(c.get("n", 0) for c in s["calls"] if c["op"] == "write")
+    d = opt.get("dict") or 0
+    # is the dictionary size exactly representable in the header byte?
+    rep = any(d == (1 << b) - k * ((1 << b) // 16) for b in range(12, 30) for k in range(8))
+    return {"family": "lz_write", "empty": total == 0, "limit": "set" if opt.get("limit") else "none",
+            "dict_representable": rep, "far": bool(s.get("period"))}
+
+
+def judge_lz_write(j, s, r, predicted=None, source="tlc-scn"):
+    base = lz_sig(s)
+    rep = {"scenario": strip(s), "source": source}
+    j.nruns += 1
+    if r["outcome"] != "ok" or any(not c["ok"] for c in r.get("calls", [])):
+        j.violation("C02", f"LZIPWriter failed on valid input: {r['outcome']} {r.get('err') or r.get('calls')}", dict(base, outcome="call_err"), rep)
+        return None
+    ds = r.get("data_sizes") or []
+    opt = s["opt"]
+    j.classes.add(("lz_write", base["dict_representable"], base["far"], base["limit"], "empty" if base["empty"] else "data", len(ds)))
+    rt, rf, mt = r["rt"], r["ref"], r["mt"]
+    if not (rt["ok"] and rt["cmp"]["equal"]):
+        j.violation("C02", f"LZIP file written by the crate (dict_size {opt.get('dict')}, header declares "
+                           f"{[x.get('dict') for x in r['recs'] if x['k'] == 'Hdr'][:1]}) is not decoded back by LZIPReader: "
+                           f"{rt['err'] or 'wrong bytes'} (got {rt['cmp']['len']} of {r['input_len']} bytes)", dict(base, outcome="roundtrip"), rep)
+    if not (rf["ok"] and rf["equal"]):
+        j.violation("C03", f"liblzma does not accept / reproduce the .lz file written by the crate (dict_size {opt.get('dict')}): {rf['err'] or 'wrong bytes'}",
+                    dict(base, outcome="ref_reject"), rep)
+    if rt["ok"] and rt["cmp"]["equal"] and not (mt.get("ok") and mt["cmp"]["equal"]):
+        j.violation("C12", f"LZIPReaderMT does not return the members in order: {mt.get('err') or 'wrong bytes'}", dict(base, outcome="mt_order"), rep)
+    if mt.get("ok") and r["input_len"] > 0 and not r.get("strict_bad") and mt.get("member_count") != len(ds):
+        j.violation("C18", f"LZIPReaderMT::member_count() = {mt.get('member_count')} for a file of {len(ds)} members", dict(base, outcome="member_count"), rep)
+    lim = opt.get("limit")
+    if lim and ds and max(ds) > max(lim, min(max(opt.get("dict") or 0, 4096), 1 << 29)):
+        j.violation("C18", f"LZIP member of {max(ds)} bytes with member_size {lim} (dictionary {opt.get('dict')})", dict(base, outcome="member_size"), rep)
+    if predicted is not None and not r.get("strict_bad"):
+        if ds != predicted["members"]:
+            return f"member sizes {ds} differ from the model's {predicted['members']}"
+        hb = [x["dictbyte"] for x in r["recs"] if x["k"] == "Hdr"]
+        if hb and hb[0] != predicted["dictbyte"]:
+            return f"dictionary byte {hb[0]} differs from the model's {predicted['dictbyte']}"
+    return None
+
+
+JUDGES["lz_write"] = lambda j, s, r, source="replay": judge_lz_write(j, s, r, None, source)
+
+
+def lz_events(s, r):
+    recs = r.get("recs") or []
+    cz = [x["csize"] for x in recs if x["k"] == "Body"]
+    opt = s["opt"]
+    d = min(max(opt.get("dict") or 0, 4096), 1 << 29)
+    ev = [{"ev": "Reset", "id": s["id"], "dict": d, "limit": opt.get("limit") or 0, "cz": cz}]
+    for c in r.get("calls", []):
+        if c["op"] == "write" and c["ok"]:
+            if c["n"] > 0:
+                ev.append({"ev": "Write", "n": c["n"]})
+        elif c["op"] == "flush":
+            ev.append({"ev": "Flush"})
+        elif c["op"] == "finish":
+            ev.append({"ev": "Finish"})
+    for x in recs:
+        e = {"ev": "Rec"}
+        for k, v in x.items():
+            if k in ("at", "why", "first_zero"):
+                continue
+            e[k] = (False if v is None else v)
+        ev.append(e)
+    rt, rf, mt = r["rt"], r["ref"], r["mt"]
+    ev.append({"ev": "End", "rt_ok": bool(rt["ok"]), "rt_equal": bool(rt["cmp"]["equal"]), "ref_ok": bool(rf["ok"]),
+               "ref_equal": bool(rf["equal"]), "mt_ok": bool(mt.get("ok")), "mt_equal": bool(mt.get("cmp", {}).get("equal")),
+               "mt_members": mt.get("member_count", -1), "input_len": r["input_len"], "consumed": r["consumed"], "stream_len": r["file_len"]})
+    return ev
+
+
+def family_lzip(ctx, j, quick, rnd, pool):
+    t0 = time.time()
+    f_design = pool.submit(lz_model, lz_consts(), LZ_INV, 3)
+    f_export = pool.submit(lz_model, lz_consts(Dicts="{4096,4608,5000,65536,70000,131072}" if quick else "{4096,4097,4608,4609,5000,65536,70000,98304,131072}",
+                                               WriteSizes="{2500,6000,90000}" if quick else "{1,2500,6000,70000,90000}",
+                                               MaxBytes="180000" if quick else "200000", MaxMembers="8"), ["ExportL"], 3, 900, False)
+    probes = []
+    val, what = REGRESSIONS["DictByteRoundsUp"]
+    if ASBUILT["DictByteRoundsUp"] != val:
+        probes.append(("DictByteRoundsUp", what, pool.submit(lz_model, lz_consts({"DictByteRoundsUp": val}), LZ_INV, 2, 600, False)))
+    scns, meta = [], []
+    r = f_design.result()
+    ctx.note_tlc("LzipContainer design (as built)", r)
+    log(f"[tlc] LzipContainer design: {r}")
+    if r.ok:
+        ctx.require_coverage(r, ["Finish", "RMember", "RDone"], "LzipContainer design")
+    else:
+        cx = printed_json(r, "cex")
+        if not cx:
+            raise ToolError(f"LzipContainer design: TLC reports {r.violated} without an exported counter-example\n{r.out[-2000:]}")
+        for i, c in enumerate(cx[:3]):
+            # the writer-level invariants fail right after Finish: make sure the data needs the dictionary
+            c = dict(c, far=True) if r.violated in ("XWellFormed",) else c
+            if c["total"] == 0:
+                c["calls"] = [["w", max(3 * c["dict"], 12000)], ["x", 0]]
+            scns.append(lz_write_scn(f"cex-{r.violated}-{i}", c, rnd))
+            meta.append(("tlc-cex", None, r.violated))
+    for (k, what, f) in probes:
+        pr = f.result()
+        ctx.add("regression_models_checked")
+        if pr.ok:
+            raise ToolError(f"regressed design {k} does not violate any invariant: the probe is vacuous")
+        for i, c in enumerate(printed_json(pr, "cex")[:2]):
+            c = dict(c, far=True)
+            if c["total"] == 0:
+                c["calls"] = [["w", max(3 * c["dict"], 12000)], ["x", 0]]
+            scns.append(lz_write_scn(f"probe-{k}-{i}", c, rnd))
+            meta.append(("tlc-regression-cex:" + k, None, pr.violated))
+            ctx.add("regression_probes")
+    er = f_export.result()
+    ctx.note_tlc("LzipContainer scenario export", er)
+    seen, exported = set(), []
+    for c in printed_json(er, "scn"):
+        key = json.dumps([c["dict"], c["limit"], c["far"], c["calls"]])
+        if key not in seen:
+            seen.add(key)
+            exported.append(c)
+    if len(exported) < 30:
+        raise ToolError(f"LZIP scenario export produced only {len(exported)} behaviours")
+    cap = 400 if quick else 4000
+    if len(exported) > cap:
+        must = [c for c in exported if len(c["calls"]) <= 2]
+        rest = [c for c in exported if len(c["calls"]) > 2]
+        exported = must + rnd.sample(rest, max(0, cap - len(must)))
+    for i, c in enumerate(exported):
+        scns.append(lz_write_scn(f"lz-{i}", c, rnd))
+        meta.append(("tlc-scn", c, None))
+    for i in range(40 if quick else 400):
+        scns.append(random_lz_scn(f"lz-rand-{i}", rnd, quick))
+        meta.append(("random", None, None))
+    res = run_scenarios(scns)
+    log(f"[impl] lz_write: {len(scns)} runs of the real LZIPWriter/LZIPReader/LZIPReaderMT + liblzma in {time.time()-t0:.1f}s")
+    ndiv = 0
+    for s, r1, (src, st, inv) in zip(scns, res, meta):
+        div = judge_lz_write(j, s, r1, predicted=st if src == "tlc-scn" else None, source=src)
+        if div:
+            ndiv += 1
+            if ndiv <= 3:
+                ctx.note_drift(f"lz_write {s['id']}: {div}")
+        if src == "tlc-cex":
+            bad = not (r1.get("rt", {}).get("ok") and r1["rt"]["cmp"]["equal"]) or not r1.get("ref", {}).get("ok")
+            if not bad:
+                raise ToolError(f"TLC reports {inv} for the as-built LzipContainer design but the implementation does not reproduce it "
+                                f"({s['id']}): the model misrepresents the code")
+    ctx.add("behaviours_replayed", len(exported))
+    ctx.add("replay_divergences", ndiv)
+    runs = [(s, r1) for s, r1 in zip(scns, res) if r1.get("outcome") == "ok" and "recs" in r1]
+    return scns, res, runs
+
+
+def random_lz_scn(sid, rnd, quick):
+    d = rnd.choice([4096, 4097, 5000, 6000, 12345, 65536, 65537, 100000, 1 << 20, 1000, 3 << 19])
+    total = rnd.choice([0, 1, 100, 4096, 5000, 20000, 70000] + ([] if quick else [300000, 1 << 20]))
+    calls, left = [], total
+    while left > 0:
+        n = min(left, rnd.choice([1, 100, 4096, 5000, 65536, left]))
+        calls.append({"op": "write", "n": n})
+        left -= n
+        if rnd.random() < 0.1:
+            calls.append({"op": "flush"})
+    calls.append({"op": "finish"})
+    opt = {"preset": rnd.choice([0, 1, 3, 6]), "dict": d}
+    if rnd.random() < 0.6:
+        opt["limit"] = rnd.choice([1, 4096, 5000, 10000, 65536])
+    s = {"id": sid, "fam": "lz_write", "seed": rnd.getrandbits(32), "opt": opt, "calls": calls,
+         "reads": rnd.choice([[4096], [1], [7, 4096, 3], [65536]])}
+    if rnd.random() < 0.5 and total > 0:
+        s["period"] = max(1, min(max(d, 4096), total) - rnd.randint(1, 16))
+    else:
+        s["class"] = rnd.choice(["text", "seq", "lowent", "random", "mixed"])
+    return s
+
+
+LZ_TRACE_INV = {"C02": ["TWellFormed", "TRoundTrip", "TContent"], "C03": ["TWellFormed", "TRef"], "C12": ["TMtOrder"],
+                "C18": ["TSizeLimit", "TMtCount"]}
+LZ_INV_PROP = {"WellFormed": ("C02", "C03"), "RoundTrip": ("C02",), "Content": ("C02",), "Ref": ("C03",), "MtOrder": ("C12",),
+               "SizeLimit": ("C18",), "MtCount": ("C18",)}
+TRACE_CONSTS_LZ = dict(Dicts="{4096}", LimitOpts="{0}", WriteSizes="{1}", MaxBytes="2000000000", MaxMembers="1000000", CSizes="{7}",
+                       Fars="{FALSE}")
+
+
+def validate_lz_runs(ctx, j, runs, pool):
+    if not runs:
+        raise ToolError("no LZIP runs to validate")
+    events, index = [], {}
+    for s, r1 in runs:
+        index[s["id"]] = (s, r1)
+        events.extend(lz_events(s, r1))
+    invs = sorted(set(i for p in j.props for i in LZ_TRACE_INV.get(p, [])))
+    consts = dict(TRACE_CONSTS_LZ, DictByteRoundsUp=ASBUILT["DictByteRoundsUp"])
+    fp = pool.submit(validate, "Trace_LzipContainer", consts, events, invs, False)
+    fs = pool.submit(validate, "Trace_LzipContainer", consts, events, [], True)
+    ok, reached, total, r, tv = fp.result()
+    ctx.note_tlc("trace lz_write (property level)", r)
+    if not ok:
+        raise ToolError(f"property-level LZIP trace pass did not consume the whole trace ({reached} of {total}):\n{r.out[-1500:]}")
+    bad = set()
+    for (inv, rid) in tv:
+        s, r1 = index[rid]
+        bad.add(rid)
+        recs = [{k: v for k, v in x.items() if k in ("k", "dictbyte", "dict", "csize", "data_size", "member_size", "why")} for x in r1["recs"]][:9]
+        for pid in LZ_INV_PROP[inv]:
+            j.violation(pid, f"trace of the real LZIPWriter rejected by the property-level spec Trace_LzipContainer: invariant T{inv} violated "
+                             f"on the file of run {rid} (dict_size {s['opt'].get('dict')}); strict-parser records {json.dumps(recs)[:500]}",
+                        dict(lz_sig(s), outcome="trace:" + inv), {"scenario": strip(s), "source": "trace", "invariant": inv})
+    ctx.cov["traces_validated_against_impl"] = ctx.cov.get("traces_validated_against_impl", 0) + len(runs) - len(bad)
+    ok2, reached2, total2, r2, _ = fs.result()
+    ctx.note_tlc("trace lz_write (implementation-shaped)", r2)
+    if ok2:
+        ctx.add("traces_explained_by_asbuilt_design", len(runs))
+    else:
+        rid = "?"
+        for e in events[:(reached2 or 0) + 1]:
+            if e["ev"] == "Reset":
+                rid = e["id"]
+        nxt = events[reached2] if reached2 is not None and reached2 < len(events) else "?"
+        ctx.note_drift(f"Trace_LzipContainer (as-built constants) cannot explain run {rid} at event {reached2} of {total2}: next {json.dumps(nxt)[:300]}")
+    return bad
+
+
+# --------------------------------------------------------------------------- LZIP dictionary-size byte (C02)
+def boundary_sizes():
+    out = set()
+    for b in range(12, 30):
+        for k in range(8):
+            for dl in (-1, 0, 1):
+                d = (1 << b) - k * ((1 << b) // 16) + dl
+                if 4096 <= d <= (1 << 29):
+                    out.add(d)
+    return sorted(out)
+
+
+def dict_byte(ctx, j, quick, pool):
+    """The dictionary-size byte function: TLC checks Covers / InRange / Minimal for all boundary sizes on the as-built
+    transcription; the transcription is compared with the crate's function for every size and every byte value."""
+    extra = 'ExportD == PrintT(ToJson([tag |-> "d", d |-> d, byte |-> EncodeByte(d), dec |-> Decode(Encode(d))]))\n' \
+            'ExportB == PrintT(ToJson([tag |-> "bytes", v |-> [x \\in 0..255 |-> DecodeByte(x)]]))\n'
+    d, mod, cfg = core.write_model("LzipDictMC, Json", dict(DictByteRoundsUp=ASBUILT["DictByteRoundsUp"]),
+                                   invariants=["ExportD", "CoversInv", "InRangeInv", "MinimalInv", "DecodeTotal"], extra_defs=extra)
+    r = core.run_tlc(mod, cfg, workers=1, cwd=d, timeout=600, coverage=False)
+    ctx.note_tlc("LzipDictMC (as built)", r)
+    log(f"[tlc] LzipDictMC: {r}")
+    sizes = boundary_sizes()
+    res = run_scenarios([{"id": "dictbyte", "fam": "dictbyte", "sizes": sizes}])[0]
+    real = {x["d"]: x for x in res["rows"]}
+    # ---- property oracle on the real function: the declared dictionary covers the requested one
+    uncovered = [x for x in res["rows"] if x["dec"] < x["d"]]
+    j.nruns += len(sizes)
+    j.classes.add(("dictbyte", "covered", len(sizes) - len(uncovered)))
+    if uncovered:
+        d0 = uncovered[0]["d"]
+        # implementation witness: a member written with that dictionary and data that uses it
+        s = {"id": f"dictbyte-{d0}", "fam": "lz_write", "seed": 7, "opt": {"preset": 0, "dict": d0}, "period": d0 - 1,
+             "calls": [{"op": "write", "n": 3 * d0}, {"op": "finish"}], "reads": [4096]}
+        r1 = run_scenarios([s])[0]
+        before = len(ctx.violations) + len(ctx.known_hits)
+        judge_lz_write(j, s, r1, None, "dictbyte-boundary")
+        j.classes.add(("dictbyte", "uncovered", len(uncovered)))
+        if len(ctx.violations) + len(ctx.known_hits) == before and "C02" in j.props:
+            raise ToolError(f"encode_dict_size under-declares the dictionary for {len(uncovered)} sizes (first {d0}) but the member still decodes")
+    if not r.ok:
+        if not uncovered and r.violated in ("CoversInv",):
+            raise ToolError(f"TLC reports {r.violated} for the as-built LzipDict but the crate's function covers all sizes: the model misrepresents the code")
+        if r.violated not in ("CoversInv",):
+            ctx.note_drift(f"LzipDictMC: {r.violated} violated on the as-built transcription (header size not minimal / out of range)")
+    # ---- conformance of the transcription: same byte for every size, same decode for every byte
+    model = {x["d"]: x for x in printed_json(r, "d")} if r.ok else {}
+    if r.ok and len(model) != len(sizes):
+        raise ToolError(f"LzipDictMC enumerated {len(model)} sizes, expected {len(sizes)}")
+    diff = [(d1, model[d1]["byte"], real[d1]["enc"]) for d1 in model if model[d1]["byte"] != real[d1]["enc"]]
+    hdiff = [(x["d"], x["hdr"], x["enc"]) for x in res["rows"] if x["hdr"] >= 0 and x["hdr"] != x["enc"]]
+    if diff or hdiff:
+        ctx.note_drift(f"lzip dictionary byte: model and code differ for {len(diff)} sizes (first {diff[:2]}); header byte differs from encode_dict_size for {hdiff[:2]}")
+    ctx.add("dictbyte_sizes_compared", len(model))
+    ctx.add("dictbyte_header_bytes_compared", sum(1 for x in res["rows"] if x["hdr"] >= 0))
